@@ -99,8 +99,8 @@ theorem C01_value_error (cfg : Config) (q : Query) (sort : Bool) (b : Bundle) (n
 
 /-- **C01_bundle_partition**: bundling only partitions the sorted sequence.  Bundles by
 count: their concatenation *is* the sorted answer, none is empty, none longer than `n`.
-Bundles by a fixed frequency `w`: none is empty, each lies in one bin `t0 / w`, and their
-concatenation is a permutation of the sorted answer. -/
+Bundles by a fixed frequency `w`: their concatenation *is* the sorted answer, none is
+empty, each lies in one bin `t0 / w`. -/
 theorem C01_bundle_partition (cfg : Config) (q : Query) (b : Bundle) (nf : Bool)
     (pop : List FileRec) (bs : List (List FileRec))
     (h : find cfg q true b nf pop = .ok (.bundles bs)) :
@@ -109,7 +109,7 @@ theorem C01_bundle_partition (cfg : Config) (q : Query) (b : Bundle) (nf : Bool)
       match b with
       | .none => False
       | .count n => bs.flatten = sortFiles raw ∧ ∀ x ∈ bs, x.length ≤ n
-      | .freq w => bs.flatten.Perm (sortFiles raw) ∧
+      | .freq w => bs.flatten = sortFiles raw ∧
           ∀ x ∈ bs, ∀ f ∈ x, ∀ g ∈ x, f.t0 / w = g.t0 / w := by
   obtain ⟨raw, hr, hprep⟩ := find_ok h
   refine ⟨raw, hr, ?_⟩
@@ -131,7 +131,8 @@ theorem C01_bundle_partition (cfg : Config) (q : Query) (b : Bundle) (nf : Bool)
     · simp only [Except.ok.injEq, Out.bundles.injEq] at hprep
       subst hprep
       obtain ⟨hp, hb⟩ := groupByBin_props w (sortFiles raw)
-      exact ⟨fun x hx => (hb x hx).1, hp, fun x hx f hf g hg => (hb x hx).2 f hf g hg⟩
+      exact ⟨fun x hx => (hb x hx).1, groupByBin_sortFiles_flatten w raw,
+        fun x hx f hf g hg => (hb x hx).2 f hf g hg⟩
 
 /-- **C01_contains_iff**: `t in fileset` is true iff some non-excluded file of the
 (well-placed) population covers `t` -/
